@@ -320,6 +320,19 @@ Proof.
   apply forallb_forall. intros b Hb. apply filter_In in Hb. tauto.
 Qed.
 
+(* ---------- sessions: every packet is judged by the outcomes at its own moment ---------- *)
+
+Lemma session_last fuel pre g backend :
+  last (announce_session fuel (pre ++ [(g, backend)])) None = announce fuel g backend.
+Proof.
+  unfold announce_session. rewrite map_app. cbn [map fst snd]. now rewrite last_last.
+Qed.
+
+Lemma session_nth fuel pkts k g backend :
+  nth_error pkts k = Some (g, backend) ->
+  nth_error (announce_session fuel pkts) k = Some (announce fuel g backend).
+Proof. intros H. unfold announce_session. now rewrite nth_error_map, H. Qed.
+
 (* ---------- non-vacuity ---------- *)
 
 (* root -> a(1, usable: children b(2, unusable), c(3, usable, redirect -> d)), d(4, usable), e(5, unusable) *)
@@ -366,3 +379,23 @@ Example g_ex_announce :
           MProxy (ONode 1 KLit true None [ONode 3 KArg true (Some (ONode 4 KLit true None [])) []]);
           MProxy (ONode 4 KLit true None [])] = true.
 Proof. vm_compute. split; reflexivity. Qed.
+
+(* the player loses node 1 between two packets: the stateless merge drops it from the second
+   packet, a cached first view would still show it *)
+Definition g_ex_revoked : graph :=
+  [(0, mkG KRoot true false None [1; 4; 5]);
+   (1, mkG KLit false true None [2; 3]);
+   (2, mkG KLit false true None []);
+   (3, mkG KArg true true (Some 4) []);
+   (4, mkG KLit true true None []);
+   (5, mkG KLit false true None [])].
+
+Example cached_view_refuted :
+  let pkts := [(g_ex, [mkB 9 99]); (g_ex_revoked, [mkB 9 99])] in
+  nth_error (announce_session 4 pkts) 1 = Some (Some [MBackend (mkB 9 99); MProxy (ONode 4 KLit true None [])]) /\
+  (exists ms, nth_error (announce_cached_session 4 pkts) 1 = Some (Some ms) /\
+              holds_C23 g_ex_revoked [mkB 9 99] ms = false /\
+              forallb (all_usable g_ex_revoked) (proxy_part ms) = false).
+Proof.
+  cbv zeta. split; [vm_compute; reflexivity|]. eexists. split; [vm_compute; reflexivity|]. split; vm_compute; reflexivity.
+Qed.
